@@ -47,11 +47,13 @@ checks = {
  "C19": ("E-CKSUM", "exploration", "runtime monitoring: checksum() vs one-shot reference for two checksummers over swept allocated lengths",
          "checksum(builder) is compared with builder.checksum_one(allocated_memory()[reserved..]) for Crc32 and for a position-dependent streaming hash (any dropped, duplicated or reordered chunk changes it; chunk lengths are recorded and must sum to the reference length) over allocated lengths around and across page multiples (thorough: every length 0..=3 pages+1) x reserved lengths x layouts x flavours.",
          "One page size (4096).", "§4 C19"),
+ "C04": ("E-ISO", "exploration", "runtime monitoring: isolated child processes run (state, call, size) cases in overflow-checked and unchecked builds; state tuple + free-list snapshot compared around failing calls; child exit status observed",
+         "Every allocation flavour is called with boundary-dense sizes up to u32::MAX on freshly built arenas in five states; a failing call must leave allocated/discarded/remaining/free list untouched, a succeeding one must satisfy the C01/C03 obligations; panics are caught and reported, a signal kills only the child and is attributed to the printed case; thorough adds 4 GiB arenas whose cursor sits next to u32::MAX and an ASan pass.",
+         "Sampled configurations; sizes are boundary sets plus random values, not all 2^32.", "§3 E-ISO, §4 C04"),
 }
 
 not_applicable = {
  "C02": "check under construction (E-SCHED schedule fuzzer); not yet claimed",
- "C04": "check under construction (E-ISO isolated case runner); not yet claimed",
  "C06": "check under construction (crash-point sweep); not yet claimed",
  "C07": "check under construction (bounded-progress monitor); not yet claimed",
  "C09": "check under construction (file mutation matrix); not yet claimed",
@@ -75,6 +77,7 @@ def main():
         {"name": "E-BUF", "path": "harness/src/bufs.rs", "serves_properties": ["C14"], "kind_free_text": "buffer call matrix with whole-arena byte images"},
         {"name": "E-READ", "path": "harness/src/readers.rs", "serves_properties": ["C15"], "kind_free_text": "reader sweep against a reference decode"},
         {"name": "E-CKSUM", "path": "harness/src/readers.rs", "serves_properties": ["C19"], "kind_free_text": "checksum sweep with two checksummers"},
+        {"name": "E-ISO", "path": "harness/src/iso.rs", "serves_properties": ["C04"], "kind_free_text": "isolated case runner (child process per shard, AT markers, catch_unwind, exit-status classification)"},
       ],
       "checks": [],
       "not_applicable": [{"property_id":k,"reason":v} for k,v in sorted(not_applicable.items()) if k not in checks],
